@@ -2,6 +2,7 @@ package main
 
 import (
 	"go/token"
+	"regexp"
 	"sort"
 	"strings"
 
@@ -141,11 +142,11 @@ func runC32(c *Ctx) []Obligation {
 		// execute: award paired with claim deletion
 		{Prop: P, ID: "exec.relay-award-then-delete", Fn: fnExecProof,
 			Assume:  []Lit{T(`^assert<x/pocketcore/types\.RelayProof>\(.*\)#1$`)},
-			Barrier: []string{`^` + kK + `DeleteClaim\(k, ctx, claim\.FromAddress, claim\.SessionHeader, 1\)$`}, Target: Success(),
+			Barrier: []string{`^` + kK + `DeleteClaim\(k, ctx, claim\.FromAddress, claim\.SessionHeader, (1|(var:)?(claim|proof)\.EvidenceType)\)$`}, Target: Success(),
 			Why: "a paid relay claim is deleted on every successful path"},
 		{Prop: P, ID: "exec.challenge-delete", Fn: fnExecProof,
 			Assume:  []Lit{F(`^assert<x/pocketcore/types\.RelayProof>\(.*\)#1$`), T(`^assert<x/pocketcore/types\.ChallengeProofInvalidData>\(phi:l\)#1$`)},
-			Barrier: []string{`^` + kK + `DeleteClaim\(k, ctx, claim\.FromAddress, claim\.SessionHeader, 2\)$`}, Target: Success(),
+			Barrier: []string{`^` + kK + `DeleteClaim\(k, ctx, claim\.FromAddress, claim\.SessionHeader, (2|(var:)?(claim|proof)\.EvidenceType)\)$`}, Target: Success(),
 			Why: "a paid challenge claim is deleted on every successful path"},
 		{Prop: P, ID: "exec.awards-claim-fields", Fn: fnExecProof,
 			Target: CallTo(`AwardCoinsForRelays\(`).Except(`^` + kK + `AwardCoinsForRelays\(k, ctx, claim\.SessionHeader\.Chain, (claim\.TotalProofs|\(claim\.TotalProofs / 100\)), claim\.FromAddress\)$`),
@@ -184,6 +185,7 @@ func runC32(c *Ctx) []Obligation {
 		c.whoMayCall(P, "setclaim.callers", "(x/pocketcore/keeper.Keeper).SetClaim", []string{`x/pocketcore\.handleClaimMsg`, kK + `SetClaims`}, "claims are stored only by the claim handler (and genesis import)"),
 		c.noReach(P, "expiry.pays-nothing", []string{"(x/pocketcore/keeper.Keeper).DeleteExpiredClaims"}, `AwardCoinsForRelays|RewardForRelays|\.mint$|MintCoins|SendCoins`, "", "expired claims are removed without payment"),
 	)
+	out = append(out, c.claimDeletedUnderLookupKey(P))
 	return out
 }
 
@@ -613,4 +615,61 @@ func (c *Ctx) sessionContextRoles(P string) []Obligation {
 		out = append(out, *o)
 	}
 	return out
+}
+
+// claimDeletedUnderLookupKey (C32): a claim is stored and looked up under (address, header, evidence
+// type); "rewarded at most once" needs the claim that was looked up and paid to be the claim that is
+// deleted. Either ExecuteProof deletes under the evidence type of the claim / proof message it was given,
+// or some check before it ties the message's evidence type to the kind of leaf ExecuteProof switches on.
+func (c *Ctx) claimDeletedUnderLookupKey(P string) Obligation {
+	const fnExec = "(x/pocketcore/keeper.Keeper).ExecuteProof"
+	o := c.obl(P, "proof.claim-deleted-under-its-own-key", fnExec, "the claim ExecuteProof pays is deleted under the key it was found under: every DeleteClaim there names the claim's / message's evidence type, OR ValidateProof / MsgProof.ValidateBasic reject a message whose evidence type disagrees with the kind of its leaf")
+	fn := c.A.Fn(fnExec)
+	if fn == nil {
+		o.unresolved("not found")
+		return *o
+	}
+	o.Pos = c.A.FnPos(fn)
+	sites := c.callSites(fn, `^\(x/pocketcore/keeper\.Keeper\)\.DeleteClaim\(`)
+	if len(sites) == 0 {
+		o.unresolved("ExecuteProof deletes no claim any more: anchor does not resolve")
+		return *o
+	}
+	var bad []site
+	for _, st := range sites {
+		o.Facts++
+		if len(st.Call.Args) < 5 {
+			continue
+		}
+		d := desc(st.Call.Args[4], maxDepth)
+		if !regexp.MustCompile(`^(var:)?(claim|proof)\.EvidenceType$`).MatchString(d) {
+			bad = append(bad, st)
+		}
+	}
+	if len(bad) == 0 {
+		return *o
+	}
+	// the alternative: a guard that compares the evidence type with the leaf
+	for _, g := range []string{"(x/pocketcore/keeper.Keeper).ValidateProof", "(x/pocketcore/types.MsgProof).ValidateBasic"} {
+		gf := c.A.Fn(g)
+		if gf == nil {
+			continue
+		}
+		for _, b := range gf.Blocks {
+			iff, ok := b.Instrs[len(b.Instrs)-1].(*ssa.If)
+			if !ok {
+				continue
+			}
+			o.Facts++
+			a := condAtom(iff.Cond).Str
+			if strings.HasPrefix(a, "eq(") && strings.Contains(a, "EvidenceType") && (strings.Contains(a, "Leaf") || strings.Contains(a, "leaf")) {
+				o.Detail = "guarded in " + g + ": " + a
+				return *o
+			}
+		}
+	}
+	for _, st := range bad {
+		o.fail(c.A.Pos(st.Ins.Pos()), "%s deletes under a fixed evidence type, while the claim was looked up under the message's: a claim filed under the other type is paid and stays in state, and every further proof message is paid again", st.Desc)
+	}
+	return *o
 }
